@@ -137,7 +137,9 @@ struct Explorer {
             for (int i = 0; i < len; ++i) data[i] = pal[idx[i]];
             std::string desc = "data=" + mc::keys_str(data);
             if (!sampled && len >= 4 && first == (palette_id * 3 + len) % 10 && idx[0] != idx[len - 1]) { run.sample(case_of(desc, prop == 12 ? "*all histories*" : "*all alphabet queries*")); sampled = true; }
-            if (prop == 12) check_c12(data, desc); else check_c11(data, desc);
+            if (prop == 12) check_c12(data, desc);
+            else if (prop == 17) { check_c11(data, desc); if (len <= c12_max_len) check_c12(data, desc); }   // memory-only mode: both corpora
+            else check_c11(data, desc);
             return !run.deadline_passed();
         });
     }
@@ -243,7 +245,7 @@ struct Explorer {
         unlink(f1.c_str()); unlink(f2.c_str()); unlink(raw.c_str());
     }
 
-    int hist_len = 4;
+    int hist_len = 4, c12_max_len = 3;
     std::vector<std::string> hists;
     void check_c12(const std::vector<K> &data, const std::string &desc) {
         if (hists.empty()) gen_histories(hist_len, hists);
@@ -274,7 +276,7 @@ template<typename K, size_t E, size_t R>
 struct Thunk {
     static const char *&name() { static const char *n = ""; return n; }
     static void run(Run &r, Cn &c, int prop, const Task &t, int hist_len) {
-        Explorer<K, E, R> ex{r, c, prop, name()}; ex.hist_len = hist_len;
+        Explorer<K, E, R> ex{r, c, prop, name()}; ex.hist_len = hist_len; ex.c12_max_len = hist_len >= 4 ? 4 : 3;
         if (t.kind == 0) ex.small_scope(t.palette, t.len, t.first);
         else if (t.kind == 1) ex.run_family(t.l0);
         else if (t.kind == 2) {
@@ -317,7 +319,7 @@ int main(int argc, char **argv) {
 #ifdef VERIF_ASAN
     N = thorough ? 5 : 4; hist_len = thorough ? 4 : 3;
 #endif
-    if (prop == 17) N = std::min(N, 4);
+    if (prop == 17) N = thorough ? 6 : 4;
     if (opt.extra.count("N")) N = atoi(opt.extra["N"].c_str());
     std::vector<Task> tasks;
     for (int len = 1; len <= N; ++len)
